@@ -63,27 +63,30 @@ def run(ctx, ck) -> None:
     for i, (p, e) in enumerate(paths):
         t = term(p.node.value, e)
         inst = f'projection path {i + 1}'
+        chain = _flatten_matmul(t)
+        if len(chain) != 3 or not all(c[0] == 'call' for c in chain):
+            ck.bad('Q1', proj_fn, f'the projection is not a product of three operators: {show(t)[:200]}', instance=inst + ' chain')
+            continue
+        rotation, index, ravel = chain
+        idx = index[2][0] if index[2] else None
+        base = idx[1][1] if idx is not None and idx[0] == 'call' and idx[1][0] == 'attr' and idx[1][2] == 'reshape' else idx
+        reshaped = base is not idx
+        ang = base[2][0][1] if base is not None and base[0] == 'call' and base[1] == ('attr', land, 'world2index') and len(base[2]) == 2 and base[2][0][0] == 'item' else None
+        ok_idx = ang is not None and base[2] == (('item', ang, 0), ('item', ang, 1)) and ang[0] == 'call' and ang[1] == ('var', 'vec2dir') and len(ang[2]) == 1 and ang[2][0][0] == 'star'
+        ck.expect('Q1', ok_idx, proj_fn, 'indices = landscape.world2index(*vec2dir(*rotated))' + (' with the unit direction axis squeezed out' if reshaped else ''),
+                  f'the sampled indices are {show(idx)[:160]}', instance=inst + ' indices')
+        es = ang[2][0][1] if ok_idx else None
         rot_m = ('call', ('var', 'get_rotation_matrix'), (samp,), ())
-        es = e.get('rotated_coords')
         ok_es = es is not None and es[0] == 'call' and es[1] == ('attr', ('var', 'jnp'), 'einsum') and len(es[2]) == 3 and es[2][1] == rot_m and es[2][2] == ('attr', dirs, 'coords')
         subs = eval(es[2][0][1]).replace(' ', '') if ok_es and es[2][0][0] == 'const' else ''
         ok_subs = _einsum_ok(subs)
         ck.expect('Q3', ok_es and ok_subs, proj_fn, f'rotated = einsum({subs!r}, rotation matrices, detector coords): the matrix column index is contracted with the coordinate index; rows, detectors, directions, samples kept',
                   f'the rotation is applied as {show(es)[:120]}: the contraction does not pair the matrix column with the coordinate axis of the directions (or transposes the matrix)', instance=inst + ' einsum')
-        ang = ('call', ('var', 'vec2dir'), (('star', es),), ())
-        idx0 = ('call', ('attr', land, 'world2index'), (('item', ang, 0), ('item', ang, 1)), ())
-        idx = e.get('indices')
-        reshaped = idx is not None and idx[0] == 'call' and idx[1] == ('attr', idx0, 'reshape')
-        ok_idx = idx == idx0 or reshaped
-        ck.expect('Q1', ok_idx, proj_fn, 'indices = landscape.world2index(*vec2dir(*rotated))' + (' with the unit direction axis squeezed out' if reshaped else ''),
-                  f'the sampled indices are {show(idx)[:160]}', instance=inst + ' indices')
         struct = ('call', ('attr', ('call', ('attr', ('var', 'StokesPyTree'), 'class_for'), (('attr', land, 'stokes'),), ()), 'structure_for'), (('attr', idx, 'shape'), ('attr', land, 'dtype')), ())
-        ravel = ('call', ('var', 'RavelOperator'), (), (('in_structure', ('attr', land, 'structure')),))
-        index = ('call', ('var', 'IndexOperator'), (idx,), (('in_structure', ('OUT', ravel)),))
-        rotation = ('call', ('var', 'QURotationOperator'), (('attr', samp, 'pa'), struct), ())
-        want = ('binop', '@', ('binop', '@', rotation, index), ravel)
-        alt = ('binop', '@', rotation, ('binop', '@', index, ravel))
-        ck.expect('Q1', t in (want, alt), proj_fn, 'projection = R(samplings.pa on the time-stream structure) @ Index(indices on the ravelled map) @ Ravel(landscape structure)',
+        want_ravel = ('call', ('var', 'RavelOperator'), (), (('in_structure', ('attr', land, 'structure')),))
+        want_index = ('call', ('var', 'IndexOperator'), (idx,), (('in_structure', ('OUT', want_ravel)),))
+        want_rot = ('call', ('var', 'QURotationOperator'), (('attr', samp, 'pa'), struct), ())
+        ck.expect('Q1', (rotation, index, ravel) == (want_rot, want_index, want_ravel), proj_fn, 'projection = R(samplings.pa on the time-stream structure) @ Index(indices on the ravelled map) @ Ravel(landscape structure)',
                   f'the projection chain is {show(t)[:260]}', instance=inst + ' chain')
     kinds = all_mv(ctx)
     for name, want_k in (('IndexOperator', 'Select'), ('RavelOperator', 'Perm')):
@@ -179,10 +182,13 @@ def run(ctx, ck) -> None:
         x, y, z = (('var', a.arg) for a in init.args.args[1:4])
         sq = lambda v: ('binop', '**', v, ('const', '2'))  # noqa: E731
         length = ('call', ('attr', ('var', 'np'), 'sqrt'), (('binop', '+', ('binop', '+', sq(x), sq(y)), sq(z)),), ())
-        ok = e.get('length') == length and any(isinstance(st, ast.AugAssign) and isinstance(st.op, ast.Div) and ast.unparse(st.target) == 'coords' and ast.unparse(st.value) == 'length' for st in init.body)
-        order = [ast.unparse(st.targets[0]) for st in init.body if isinstance(st, ast.Assign) and ast.unparse(st.targets[0]).startswith('coords[')]
-        vals = [ast.unparse(st.value) for st in init.body if isinstance(st, ast.Assign) and ast.unparse(st.targets[0]).startswith('coords[')]
-        ok = ok and order == ['coords[0]', 'coords[1]', 'coords[2]'] and vals == [a.arg for a in init.args.args[1:4]]
+        len_name = next((k for k, v in e.items() if v == length), None)
+        div = next((st for st in init.body if isinstance(st, ast.AugAssign) and isinstance(st.op, ast.Div) and isinstance(st.target, ast.Name) and isinstance(st.value, ast.Name) and st.value.id == len_name), None)
+        arr = div.target.id if div is not None else None
+        order = [ast.unparse(st.targets[0]) for st in init.body if isinstance(st, ast.Assign) and arr and ast.unparse(st.targets[0]).startswith(f'{arr}[')]
+        vals = [ast.unparse(st.value) for st in init.body if isinstance(st, ast.Assign) and arr and ast.unparse(st.targets[0]).startswith(f'{arr}[')]
+        stored = any(isinstance(st, ast.Assign) and ast.unparse(st.targets[0]) == f'{init.args.args[0].arg}.coords' and arr in ast.unparse(st.value) for st in init.body) if arr else False
+        ok = div is not None and order == [f'{arr}[0]', f'{arr}[1]', f'{arr}[2]'] and vals == [a.arg for a in init.args.args[1:4]] and stored
     ck.expect('Q4', ok, init or det.node, 'detector directions are stored as (x, y, z) / sqrt(x^2 + y^2 + z^2)', 'DetectorArray no longer stores the unit vectors (x, y, z)/|v| in that order', instance='unit directions')
 
     # ------------------------------------------------------------------ Q5
